@@ -2,6 +2,7 @@ import St4sd.Model.Layer
 import St4sd.Lemmas.C15Assoc
 import St4sd.Lemmas.C15Sort
 import St4sd.Lemmas.C15Dsl
+import St4sd.Props.C03
 /-!
 # C15 — Loading a package is deterministic
 
@@ -15,6 +16,13 @@ proved to be a function of every environment *as a mapping* (`env_dedup_perm_inv
 `env_dedup_mapping_only`, `env_same_name_iff`, `env_identity_determines_entries`), and the `-I, -II, …` numbering
 of duplicate step names a function of the visiting order only (`dup_naming_visit_order_only`,
 `dup_naming_prefix_stable`, `dup_naming_first_free`, `dup_names_distinct`).
+
+Replication (`Model/ReplVars.lean`, shared with C03): `FlowIRConcrete.replicate` hands the components to
+`FlowIR.apply_replicate` in the iteration order of a *set* of `(stage, name)` tuples, an order that changes with
+the hash seed of the process.  `replicate_resolution_visit_order_irrelevant`: the replica counts and aggregate
+flags the resolution loop records (those given through `%(var)s` included) are the same set for every such
+order, and whether the loop fails does not depend on the order either (`Witness/C15.lean`: a loop that carried
+the variables of one component over to the next would not have this property).
 
 The model of `loadVars` is the *repaired* conf.py (fixes/C15-variable-files-order.diff); the code before the
 repair is `loadVarsOld` (see `Witness/C15.lean`).
@@ -447,5 +455,54 @@ example : loadNames [⟨["entry-instance".toList, "work".toList], "c-a".toList, 
   decide
 example : pick [(0, "work".toList), (0, "work-I".toList)] "work".toList 3 0 = .named 0 "work-II".toList := by decide
 end DslExamples
+
+/-! ## replication: the order in which a set hands over the components -/
+
+section ReplOrder
+open St4sd.Repl in
+/-- **The resolved replica counts / aggregate flags do not depend on the visiting order.**  For any two
+orders `wf`, `wf'` of the same components (the iteration order of the set of component identifiers in two
+processes): if the resolution loop of `apply_replicate` succeeds on one it succeeds on the other and records
+the same resolved components; if it fails on one it fails on the other. -/
+theorem replicate_resolution_visit_order_irrelevant (g : St4sd.Repl.Vars) (st : Nat → St4sd.Repl.Vars)
+    {wf wf' : List St4sd.Repl.Raw} (hp : wf.Perm wf') :
+    (∀ out, resolveAll g st wf = .ok out →
+      ∃ out', resolveAll g st wf' = .ok out' ∧ ∀ c, c ∈ out ↔ c ∈ out') ∧
+    ((∃ e, resolveAll g st wf = .error e) → ∃ e', resolveAll g st wf' = .error e') := by
+  constructor
+  · intro out h
+    obtain ⟨out', h', hperm⟩ := St4sd.C03.resolveAll_perm g st hp out h
+    exact ⟨out', h', fun c => hperm.mem_iff⟩
+  · rintro ⟨e, he⟩
+    cases h' : resolveAll g st wf' with
+    | error e' => exact ⟨e', rfl⟩
+    | ok out' =>
+      obtain ⟨out, h, _⟩ := St4sd.C03.resolveAll_perm g st hp.symm out' h'
+      rw [h] at he
+      cases he
+
+open St4sd.Repl in
+/-- the value recorded for one component is a function of the scopes it can see — wherever it stands in
+either order (C03 `count_independent_of_siblings`, restated for two enumeration orders of one set) -/
+theorem replicate_count_position_irrelevant (g : St4sd.Repl.Vars) (st : Nat → St4sd.Repl.Vars) (r : St4sd.Repl.Raw)
+    (pre post pre' post' : List St4sd.Repl.Raw) (out out' : List Comp)
+    (h : resolveAll g st (pre ++ r :: post) = .ok out) (h' : resolveAll g st (pre' ++ r :: post') = .ok out') :
+    out[pre.length]? = out'[pre'.length]? := by
+  obtain ⟨c, _, h1, h2⟩ := St4sd.C03.count_independent_of_siblings g st r pre post pre' post' out out' h h'
+  rw [h1, h2]
+
+/-- `sweep` asks for `%(N)s` replicas (N = 2 globally), its sibling `tune` sets N = 3 for itself: 2 in both orders -/
+example : ((St4sd.Repl.resolveAll [("N".toList, "2".toList)] (fun _ => [])
+      [{ stage := 0, name := "tune".toList, refs := [], vars := [("N".toList, "3".toList)], replicate := .absent,
+         aggregate := .absent },
+       { stage := 0, name := "sweep".toList, refs := [], vars := [], replicate := .var "N".toList,
+         aggregate := .absent }]).toOption.map (·.map (·.repl)),
+    (St4sd.Repl.resolveAll [("N".toList, "2".toList)] (fun _ => [])
+      [{ stage := 0, name := "sweep".toList, refs := [], vars := [], replicate := .var "N".toList,
+         aggregate := .absent },
+       { stage := 0, name := "tune".toList, refs := [], vars := [("N".toList, "3".toList)], replicate := .absent,
+         aggregate := .absent }]).toOption.map (·.map (·.repl))) =
+    (some [none, some 2], some [some 2, none]) := by decide
+end ReplOrder
 
 end St4sd.C15
